@@ -54,7 +54,7 @@ func C02(r *core.Run) {
 		"(R02.2) every Backend/VersionedBackend method of every implementation can return the error code its contract mandates (NoSuchBucket, NoSuchKey, BucketAlreadyExists, BucketNotEmpty, NoSuchVersion); " +
 		"(R02.3) no delete operation can return NoSuchKey (idempotence); (R02.4) every ErrorCode used has an explicit HTTP status and the five codes of the property map to 404/409, every handler error reaches httpError, ensureErrorResponse is total; " +
 		"(R02.5) CopyObject wires source to destination with the fetched object's contents, size and hash; (R02.6) bucket removal happens only on the non-empty-test's empty arm; " +
-		"(R01.2, shared) every PutObject replaces the stored bytes by one consumption of the input (fs: truncating open of the object path); (R10.7, shared) object deletion is never recursive; (R02.7) deleting a nested key on the fs backends prunes the directories it leaves empty, so an emptied bucket can be deleted."
+		"(R01.2, shared) every PutObject replaces the stored bytes by one consumption of the input (fs: truncating open of the object path); (R10.7, shared) object deletion is never recursive; (R02.7) deleting a nested key on the fs backends prunes the directories it leaves empty, so an emptied bucket can be deleted. (R02.8) the existence check that may auto-create a bucket is applied only to the addressed bucket; R02.7 also requires the emptiness test to be of the very directory that is removed."
 	r.NotDecided = "read-your-writes, overwrite/copy value semantics, agreement of whole responses with a reference model, auto-bucket behaviour"
 	rule021(r)
 	rule022(r)
